@@ -39,6 +39,7 @@ type Op struct {
 	D     int64   `json:",omitempty"` // ms for advance
 	Del   []string `json:",omitempty"` // restart: index classes to delete
 	DelSeed uint32 `json:",omitempty"`
+	Kill    bool   `json:",omitempty"` // restart: stop without Close (data flushed first), i.e. an unclean stop that loses nothing
 	GCBucket int  `json:",omitempty"`
 	GCStart int   `json:",omitempty"`
 	GCEnd   int   `json:",omitempty"`
@@ -64,7 +65,7 @@ func (o Op) String() string {
 	case "advance":
 		return fmt.Sprintf("#%d advance %dms", o.ID, o.D)
 	case "restart":
-		return fmt.Sprintf("#%d restart del=%v seed=%d", o.ID, o.Del, o.DelSeed)
+		return fmt.Sprintf("#%d restart del=%v seed=%d kill=%v", o.ID, o.Del, o.DelSeed, o.Kill)
 	case "gc":
 		return fmt.Sprintf("#%d gc b=%d [%d,%d] days=%d merge=%v pretend=%v", o.ID, o.GCBucket, o.GCStart, o.GCEnd, o.GCDays, o.Merge, o.Pretend)
 	}
